@@ -60,6 +60,9 @@ class DV:
     def __hash__(self):
         return hash(self._k())
 
+    def __lt__(self, o):       # only used to give sets of folded values a stable iteration order
+        return repr(self) < repr(o)
+
     def __repr__(self):
         return f'{self.cls.name}({", ".join(f"{k}={v!r}" for k, v in self.fields.items())})'
 
@@ -97,7 +100,7 @@ class _Continue(Exception):
     pass
 
 
-BUILTINS = {'range', 'enumerate', 'str', 'int', 'len', 'abs', 'isinstance', 'tuple', 'bool', 'ValueError', 'Exception',
+BUILTINS = {'dict', 'range', 'enumerate', 'str', 'int', 'len', 'abs', 'isinstance', 'tuple', 'bool', 'ValueError', 'Exception',
             'KeyError', 'NotImplementedError', 'TypeError', 'list', 'sorted', 'set', 'min', 'max'}
 
 
@@ -105,6 +108,9 @@ class Folder:
     def __init__(self, repo: Repo, max_steps: int = 20000, allow_loops: bool = False):
         self.repo = repo
         self.allow_loops = allow_loops
+        self._fresh = set()
+        self._keep = []
+        self.stubs = {}        # dotted call text -> python callable (declared primitives, e.g. random.shuffle)
         self.steps = 0
         self.max_steps = max_steps
 
@@ -183,6 +189,9 @@ class Folder:
                 return ClsRef(obj.cls)
             c, fn = self._find(obj.cls, name)
             if fn is None:
+                for cc in self.repo.mro(obj.cls):
+                    if name in cc.assigns:
+                        return self._eval(cc.assigns[name], {}, cc.module, cc)
                 raise Unsupported(f'{obj.cls.name}.{name}')
             if c.method_kind(name) == 'property':
                 return self._invoke(c.module, c, fn, obj, [], {})
@@ -213,6 +222,19 @@ class Folder:
                                               'replace'):
             return ('strmethod', obj, name)
         if isinstance(obj, dict) and name in ('get', 'items', 'keys', 'values'):
+            return ('strmethod', obj, name)
+        if isinstance(obj, tuple) and len(obj) == 2 and obj[0] == 'pymodule' and obj[1] == 're':
+            import re as _re
+            if name in ('sub', 'findall', 'match', 'fullmatch', 'search', 'split'):
+                return ('pyfunc', getattr(_re, name))
+            if name in ('IGNORECASE', 'I', 'MULTILINE', 'DOTALL'):
+                return getattr(_re, name)
+        import re as _re2
+        if isinstance(obj, _re2.Match) and name in ('group', 'groups', 'start', 'end', 'span'):
+            return ('strmethod', obj, name)
+        if isinstance(obj, list) and name in ('append', 'index', 'count'):
+            return ('strmethod', obj, name)
+        if isinstance(obj, set) and name in ('add',):
             return ('strmethod', obj, name)
         raise Unsupported(f'attribute {name} on {type(obj).__name__}')
 
@@ -255,6 +277,7 @@ class Folder:
         return None
 
     def _block(self, body, env, mod, ci):
+        self._cur_mod = mod
         for st in body:
             self.steps += 1
             if self.steps > self.max_steps:
@@ -307,6 +330,12 @@ class Folder:
                     self._block(st.orelse, env, mod, ci)
             elif isinstance(st, ast.For) and self.allow_loops:
                 it = self._eval(st.iter, env, mod, ci)
+                if isinstance(it, ClsRef) and it.cls.is_enum:
+                    it = [EV(it.cls, n, v) for n, v in it.cls.enum_members().items()]
+                elif isinstance(it, (set, frozenset)):
+                    it = sorted(it, key=repr)
+                elif isinstance(it, (dict, type({}.items()), type({}.keys()), type({}.values()))):
+                    it = list(it)
                 if not isinstance(it, (list, tuple, range, str)):
                     raise Unsupported('for over ' + type(it).__name__)
                 broke = False
@@ -337,6 +366,12 @@ class Folder:
                 raise Unsupported('tuple arity')
             for tt, vv in zip(t.elts, vs):
                 self._assign(tt, vv, env)
+        elif isinstance(t, ast.Attribute) and isinstance(t.value, ast.Name) and t.value.id in env \
+                and isinstance(env[t.value.id], DV) and id(env[t.value.id]) in self._fresh:
+            env[t.value.id].fields[t.attr] = v
+        elif isinstance(t, ast.Subscript) and isinstance(t.value, ast.Name) and t.value.id in env \
+                and isinstance(env[t.value.id], (dict, list)) and self.allow_loops:
+            env[t.value.id][self._eval(t.slice, env, self._cur_mod, None)] = v
         else:
             raise Unsupported('assignment to non-local in folded function')
 
@@ -397,6 +432,13 @@ class Folder:
             if '__post_init__' in ci.methods:
                 self._invoke(ci.module, ci, ci.methods['__post_init__'], dv, [], {})
             return dv
+        c, init = self._find(ci, '__init__')
+        if init is not None and self.allow_loops:
+            obj = DV(ci, {})
+            self._fresh.add(id(obj))
+            self._keep.append(obj)
+            self._invoke(c.module, c, init, obj, args, kw)
+            return obj
         raise Unsupported(f'constructor of {ci.name}')
 
     def _name(self, name, env, mod: ModuleInfo, ci):
@@ -410,6 +452,8 @@ class Folder:
                 return self._eval(r[2], {}, r[1], None)
             if r[0] == 'func':
                 return ('func', r[1], r[2])
+            if r[0] == 'module' and r[1] == 're':
+                return ('pymodule', 're')
         if name in BUILTINS:
             return ('builtin', name)
         raise Unsupported(f'name {name}')
@@ -538,7 +582,7 @@ class Folder:
         if isinstance(e, ast.List):
             return [self._eval(x, env, mod, ci) for x in e.elts]
         if isinstance(e, ast.Set):
-            return frozenset(self._eval(x, env, mod, ci) for x in e.elts)
+            return set(self._eval(x, env, mod, ci) for x in e.elts)
         if isinstance(e, ast.Dict):
             return {self._eval(k, env, mod, ci): self._eval(v, env, mod, ci) for k, v in zip(e.keys, e.values)}
         if isinstance(e, ast.Subscript):
@@ -550,6 +594,11 @@ class Folder:
                     raise Unsupported('slice step')
                 return base[lo:hi]
             idx = self._eval(e.slice, env, mod, ci)
+            if isinstance(base, DV):
+                c, fn = self._find(base.cls, '__getitem__')
+                if fn is None:
+                    raise Unsupported(f'{base.cls.name} is not subscriptable')
+                return self._invoke(c.module, c, fn, base, [idx], {})
             if isinstance(base, ClsRef):
                 if not base.cls.is_enum:
                     raise Unsupported('subscript of class')
@@ -563,6 +612,8 @@ class Folder:
                 raise FoldRaise(type(ex).__name__, str(ex))
         if isinstance(e, ast.Call):
             return self._call(e, env, mod, ci)
+        if isinstance(e, ast.Lambda):
+            return ('lambda', e, dict(env), mod, ci)
         if isinstance(e, (ast.ListComp, ast.SetComp, ast.GeneratorExp, ast.DictComp)) and self.allow_loops:
             out = []
 
@@ -588,7 +639,7 @@ class Folder:
                         rec(gi + 1, env3)
             rec(0, dict(env))
             if isinstance(e, ast.SetComp):
-                return frozenset(out)
+                return set(out)
             if isinstance(e, ast.DictComp):
                 return dict(out)
             return out
@@ -598,11 +649,26 @@ class Folder:
         a = self._attr(obj, name)
         return a
 
+    def _as_callable(self, v):
+        if isinstance(v, tuple) and len(v) == 5 and v[0] == 'lambda':
+            return lambda *a: self._call_value(v, list(a))
+        return v
+
+    def _call_value(self, f, args):
+        _, node, cenv, cmod, cci = f
+        env2 = dict(cenv)
+        for prm, a in zip(node.args.args, args):
+            env2[prm.arg] = a
+        return self._eval(node.body, env2, cmod, cci)
+
     def _call(self, e: ast.Call, env, mod, ci):
         # super().m(...)
         if isinstance(e.func, ast.Attribute) and isinstance(e.func.value, ast.Call) \
                 and isinstance(e.func.value.func, ast.Name) and e.func.value.func.id == 'super':
             raise Unsupported('super() in folded function')
+        ftxt = ast.unparse(e.func)
+        if ftxt in self.stubs:
+            return self.stubs[ftxt](*[self._eval(a, env, mod, ci) for a in e.args])
         f = self._eval(e.func, env, mod, ci)
         args = [self._eval(a, env, mod, ci) for a in e.args]
         kw = {k.arg: self._eval(k.value, env, mod, ci) for k in e.keywords}
@@ -612,6 +678,20 @@ class Folder:
             return self._construct(f.cls, args, kw)
         if isinstance(f, tuple) and f[0] == 'func':
             return self._invoke(f[1], None, f[2], None, args, kw)
+        if isinstance(f, tuple) and f[0] == 'pyfunc':
+            conv = [self._as_callable(a) for a in args]
+            try:
+                return f[1](*conv, **kw)
+            except (Unsupported, FoldRaise):
+                raise
+            except Exception as ex:  # noqa
+                raise FoldRaise(type(ex).__name__, str(ex))
+        if isinstance(f, tuple) and f[0] == 'lambda':
+            _, node, cenv, cmod, cci = f
+            env2 = dict(cenv)
+            for prm, a in zip(node.args.args, args):
+                env2[prm.arg] = a
+            return self._eval(node.body, env2, cmod, cci)
         if isinstance(f, tuple) and f[0] == 'strmethod':
             try:
                 return getattr(f[1], f[2])(*args)
@@ -626,19 +706,30 @@ class Folder:
             if n == 'len':
                 return len(args[0])
             if n == 'set':
-                return frozenset(args[0]) if args else frozenset()
+                return set(args[0]) if args else set()
             if n == 'sorted':
-                return sorted(args[0], key=repr)
+                import functools
+                items = list(args[0])
+
+                def cmp(a, b):
+                    if self._cmp(ast.Lt(), a, b):
+                        return -1
+                    if self._cmp(ast.Lt(), b, a):
+                        return 1
+                    return 0
+                return sorted(items, key=functools.cmp_to_key(cmp), reverse=bool(kw.get('reverse', False)))
             if n == 'abs':
                 return abs(args[0])
             if n == 'bool':
                 return self._truth(args[0])
             if n == 'tuple':
-                return tuple(args[0])
+                return tuple(args[0]) if args else ()
             if n == 'list':
-                return list(args[0])
+                return list(args[0]) if args else []
             if n in ('min', 'max'):
                 return (min if n == 'min' else max)(*args)
+            if n == 'dict':
+                return dict(*args)
             if n == 'range':
                 return range(*args)
             if n == 'enumerate':
